@@ -1,3 +1,8 @@
+#include <algorithm>
+#include <ctime>
+#include <cstdlib>
+#include <sys/wait.h>
+#include <unistd.h>
 #include "run/runner.h"
 #include "eng/sdk.h"
 #include "ref/world.h"
@@ -47,29 +52,48 @@ static int refmodel() {
 	return bad ? 1 : 0;
 }
 
-// every plan executed twice in this process must give the same event-log hash
-static int determinism(uint64_t n) {
+// every plan executed twice in this process must give the same event-log hash; one forked child per (engine, property)
+static int determinism_pair(Engine *e, const char *prop, uint64_t n, uint64_t &runs) {
 	int bad = 0;
-	uint64_t runs = 0;
-	for (auto *e : all_engines()) {
-		for (const char *prop : {"C13", "C14", "C06", "C15", "C07", "C08", "C04", "C11", "C16"}) {
-			for (uint64_t i = 0; i < n; i++) {
-				Plan p = e->generate(sim::mix(0xd37, i), prop, 0);
-				RunResult a = e->execute(p, true), b = e->execute(p, true);
-				runs++;
-				if (a.hash != b.hash) {
-					bad++;
-					if (bad <= 3) {
-						RunResult &ta = a, &tb = b;
-						printf("determinism: engine %s prop %s seed-index %llu: %016llx vs %016llx\n", e->name(), prop, (unsigned long long)i, (unsigned long long)a.hash, (unsigned long long)b.hash);
-						for (size_t k = 0; k < ta.log.size() && k < tb.log.size(); k++) if (ta.log[k] != tb.log[k]) { printf("  first difference at line %zu:\n   A %s\n   B %s\n", k, ta.log[k].c_str(), tb.log[k].c_str()); break; }
-						if (ta.log.size() != tb.log.size()) printf("  log lengths %zu vs %zu\n", ta.log.size(), tb.log.size());
-					}
-				}
+	for (uint64_t i = 0; i < n; i++) {
+		Plan p = e->generate(sim::mix(0xd37, i), prop, 0);
+		RunResult a = e->execute(p, true), b = e->execute(p, true);
+		runs++;
+		if (a.hash != b.hash) {
+			bad++;
+			if (bad <= 3) {
+				printf("determinism: engine %s prop %s seed-index %llu: %016llx vs %016llx\n", e->name(), prop, (unsigned long long)i, (unsigned long long)a.hash, (unsigned long long)b.hash);
+				for (size_t k = 0; k < a.log.size() && k < b.log.size(); k++) if (a.log[k] != b.log[k]) { printf("  first difference at line %zu:\n   A %s\n   B %s\n", k, a.log[k].c_str(), b.log[k].c_str()); break; }
+				if (a.log.size() != b.log.size()) printf("  log lengths %zu vs %zu\n", a.log.size(), b.log.size());
 			}
 		}
 	}
-	printf("selftest determinism: %s (%llu plans run twice, %d diverged)\n", bad ? "FAILED" : "ok", (unsigned long long)runs, bad);
+	return bad;
+}
+
+static int determinism(uint64_t n) {
+	static const struct { const char *engine, *prop; unsigned div = 1; } pairs[] = {
+		{"async", "C13"}, {"async", "C14"}, {"async", "C06"}, {"ha", "C15"}, {"world", "C07"}, {"world", "C08"}, {"world", "C06", 25}, {"world", "C14"},
+		{"alloc", "C19"}, {"history", "C11"}, {"history", "C16"}, {"trust", "C04", 4}};
+	std::vector<pid_t> kids;
+	fflush(stdout);
+	for (auto &pr : pairs) {
+		pid_t pid = fork();
+		if (pid == 0) {
+			uint64_t runs = 0;
+			Engine *e = engine_by_name(pr.engine);
+			struct timespec t0, t1; clock_gettime(CLOCK_MONOTONIC, &t0);
+			int bad = e ? determinism_pair(e, pr.prop, std::max<uint64_t>(4, n / pr.div), runs) : 1;
+			clock_gettime(CLOCK_MONOTONIC, &t1);
+			if (getenv("VERIF_TRACE")) printf("determinism %s/%s: %.1f s\n", pr.engine, pr.prop, (t1.tv_sec - t0.tv_sec) + (t1.tv_nsec - t0.tv_nsec) / 1e9);
+			fflush(stdout);
+			_exit(bad ? 1 : 0);
+		}
+		kids.push_back(pid);
+	}
+	int bad = 0;
+	for (pid_t k : kids) { int st = 0; waitpid(k, &st, 0); if (!WIFEXITED(st) || WEXITSTATUS(st) != 0) bad++; }
+	printf("selftest determinism: %s (%zu engine/property pairs x up to %llu plans run twice, %d pair(s) diverged or crashed)\n", bad ? "FAILED" : "ok", sizeof pairs / sizeof pairs[0], (unsigned long long)n, bad);
 	return bad ? 1 : 0;
 }
 
@@ -77,7 +101,7 @@ int cmd_selftest(const std::string &what) {
 	int rc = 0;
 	sim::K.reset(1600000000000LL);
 	if (what == "all" || what == "refmodel") rc |= refmodel();
-	if (what == "all" || what == "determinism") rc |= determinism(what == "all" ? 150 : 1500);
+	if (what == "all" || what == "determinism") rc |= determinism(what == "all" ? 100 : 1500);
 	return rc ? 2 : 0;
 }
 
